@@ -101,6 +101,9 @@ class extract_visitor(NodeVisitor):
         elif node.value:
             name.flow = self.flow  # type: ignore[attr-defined]
             self.flow.add_name(AssignedName(name.id, eend, np(name), node.value))
+        elif isinstance(self.flow.scope, FuncScope):
+            # a bare annotation binds nothing but makes the name local to the function
+            self.flow.scope.locals.add(name.id)
 
     def visit_If(self, node):
         # type: (ast.If) -> None
